@@ -82,6 +82,8 @@ func runC11(c *an.Ctx) {
 	c.Min("R11.6", 10)
 	r076as(c, "R11.10") // a published message is never handed to a write whose before-interceptor edits its argument: lock-free readers race with that edit (shared with R07.6)
 	c.Min("R11.10", 1)
+	r1316as(c, "R11.11") // a message handed to the other side of a wrapped stream is a copy: the receiver merges from it after Send has returned (shared with R13.16)
+	c.Min("R11.11", 2)
 	c.Min("R11.7", 1)
 	c.Min("R11.1", 40)
 	c.Min("R11.2", 60)
